@@ -313,6 +313,10 @@ func buildAndVerify(vc vcase) VObs {
 		opts.RevocationClient = deprecatedClient{fx.rev}
 	} else {
 		opts.RevocationCodeSigningValidator = ctxValidator{fx.rev}
+		if (vc.sigMut+vc.capOrd)%3 == 2 {
+			// the deprecated option is set as well, with a client that finds nothing wrong: the validator is the one that counts
+			opts.RevocationClient = deprecatedClient{&mockRevocation{}}
+		}
 	}
 	var v interface {
 		Verify(ctx context.Context, desc ocispec.Descriptor, signature []byte, opts notation.VerifierVerifyOptions) (*notation.VerificationOutcome, error)
@@ -561,6 +565,16 @@ func newVFixture(in VIn, scheme signature.SigningScheme, vc vcase) *vfixture {
 				fx.chainKey, fx.signingTime = "expiredLeaf3", -5
 			}
 		}
+		if in.CertTime == "valid" && scheme == signature.SigningSchemeX509SigningAuthority && in.RevVec == nil && in.DN == nil && in.Stores == nil {
+			// valid at the authentic signing time - also when that time is, to the second, the first or the last moment of the signing
+			// certificate's validity (the period includes both ends)
+			switch vc.sigMut % 3 {
+			case 1:
+				fx.chainKey = "edgeNB3"
+			case 2:
+				fx.chainKey = "edgeNA3"
+			}
+		}
 		if in.Expired {
 			fx.expiry = -1
 		}
@@ -623,6 +637,7 @@ func newVFixture(in VIn, scheme signature.SigningScheme, vc vcase) *vfixture {
 	if in.RevVec != nil {
 		setupRevVec(fx, in.RevVec)
 		fx.rev.mirror = (vc.sigMut+vc.capOrd)%2 == 1
+		fx.rev.noServers = (vc.sigMut+vc.baseIdx)%3 == 1
 	} else {
 		switch in.Rev {
 		case "revoked":
@@ -742,6 +757,13 @@ func stdChainByKey(key string) *Chain {
 			return NewChain(specs)
 		case "unrelated3":
 			return StdChain("unrelated", 3, EC256)
+		case "edgeNB3", "edgeNA3":
+			// the signing certificate's validity begins / ends exactly at the usual signing time (-2)
+			leaf := CertSpec{Subject: name("edge-leaf"), NotBefore: at(-2), NotAfter: at(24 * 30)}
+			if key == "edgeNA3" {
+				leaf = CertSpec{Subject: name("edge-leaf"), NotBefore: at(-24 * 30), NotAfter: at(-2)}
+			}
+			return NewChain([]CertSpec{leaf, {Subject: name("edge-inter1")}, {Subject: name("edge-root")}})
 		case "expiredLeaf3":
 			specs := []CertSpec{{Subject: name("expired-leaf"), NotBefore: at(-24 * 30), NotAfter: at(-2)}, {Subject: name("expired-inter1")}, {Subject: name("expired-root")}}
 			return NewChain(specs)
